@@ -58,6 +58,11 @@ def _build_gate(name, params):
                rz=L.RZGate, rx=L.RXGate, ry=L.RYGate)
     if name == "csxdg":
         return L.CSXGate().inverse()
+    if name == "ccx":
+        return L.CCXGate()
+    if name == "rzz_unbound":
+        from qiskit.circuit import Parameter
+        return L.RZZGate(Parameter("t"))
     if name == "unitary":
         from qiskit.quantum_info import random_unitary
         return L.UnitaryGate(random_unitary(4, seed=int(params[0])).data)
@@ -70,7 +75,10 @@ def _build_circuit(nq, ops):
     from qiskit import QuantumCircuit
     qc = QuantumCircuit(nq)
     for name, qs, params in ops:
-        qc.append(_build_gate(name, params), list(qs))
+        if name == "barrier":
+            qc.barrier(*qs)
+        else:
+            qc.append(_build_gate(name, params), list(qs))
     return qc
 
 
@@ -114,20 +122,35 @@ def _canon_circ(ctx, qc):
     return dict(regs=regs, data=ctx.canon_circuit(qc))
 
 
-def _exec_call(spec):
-    """-> (canonical JSON-able result, short summary).  Exceptions are part of the result."""
+def _exec_call(spec, cache=None):
+    """-> (canonical JSON-able result, short summary).  Exceptions are part of the result.
+    cache: dict or None.  With a dict, the argument OBJECTS (circuit, OptimizationParameters, DeviceConstraints, gate,
+    observables) of equal calls are built once and passed again (instance reuse)."""
     from circ import CircCtx
     kind = spec["kind"]
+    key = json.dumps(spec, sort_keys=True)
+
+    def cached(tag, build):
+        if cache is None:
+            return build()
+        if (tag, key) not in cache:
+            cache[(tag, key)] = build()
+        return cache[(tag, key)]
     try:
         if kind == "fc":
             from qiskit_addon_cutting.automated_cut_finding import find_cuts, OptimizationParameters, DeviceConstraints
-            qc = _build_circuit(spec["nq"], spec["ops"])
-            opt = OptimizationParameters(seed=spec["seed"], max_gamma=spec["max_gamma"], max_backjumps=spec["max_backjumps"],
-                                         gate_lo=spec["gate_lo"], wire_lo=spec["wire_lo"])
-            out, md = find_cuts(qc, opt, DeviceConstraints(spec["width"]))
+            qc = cached("qc", lambda: _build_circuit(spec["nq"], spec["ops"]))
+            n_before = len(qc.data)
+            opt = cached("opt", lambda: OptimizationParameters(seed=spec["seed"], max_gamma=spec["max_gamma"],
+                                                               max_backjumps=spec["max_backjumps"],
+                                                               gate_lo=spec["gate_lo"], wire_lo=spec["wire_lo"]))
+            cons = cached("cons", lambda: DeviceConstraints(spec["width"]))
+            out, md = find_cuts(qc, opt, cons)
+            assert len(qc.data) == n_before, "find_cuts changed its input circuit"
             ctx = CircCtx()
             c = _canon_circ(ctx, out)
             benv = [[[str(x) for x in side] for side in m] for b in ctx.canon_benv() for m in b]
+            benv.append([[_canon_float(x) for x in b.coeffs] for b in ctx.bases])
             meta = dict(cuts=[[str(t), int(i)] for t, i in md["cuts"]], sampling_overhead=_canon_float(md["sampling_overhead"]),
                         minimum_reached=bool(md["minimum_reached"]), keys=sorted(md.keys()))
             return ["ok", dict(circ=c, benv=benv, gate_info={str(k): [v[0], [(_canon_float(p) if isinstance(p, float) else p) for p in v[1]]]
@@ -136,8 +159,8 @@ def _exec_call(spec):
         if kind == "ge":
             from qiskit.quantum_info import PauliList
             from qiskit_addon_cutting import partition_problem, generate_cutting_experiments, cut_gates
-            qc = _build_circuit(spec["nq"], spec["ops"])
-            obs = PauliList(spec["obs"])
+            qc = cached("qc", lambda: _build_circuit(spec["nq"], spec["ops"]))
+            obs = cached("obs", lambda: PauliList(spec["obs"]))
             ns = np.inf if spec["num_samples"] is None else spec["num_samples"]
             if spec["form"] == "partitioned":
                 pp = partition_problem(qc, spec["labels"], observables=obs)
@@ -158,7 +181,7 @@ def _exec_call(spec):
             return ["ok", dict(sub=csub, coef=ccoef)], f"ok subexperiments={nsub} coefficients={len(coef)}"
         if kind == "fi":
             from qiskit_addon_cutting.qpd import QPDBasis
-            b = QPDBasis.from_instruction(_build_gate(spec["gate"], spec["params"]))
+            b = QPDBasis.from_instruction(cached("gate", lambda: _build_gate(spec["gate"], spec["params"])))
             return ["ok", _canon_basis(b)], f"ok maps={len(b.maps)} kappa={b.kappa}"
         raise KeyError(kind)
     except ValueError as e:
@@ -243,16 +266,18 @@ def worker(inp, outp):
     warnings.filterwarnings("ignore")
     job = json.load(open(inp))
     full = job.get("full", False)
+    cache = {} if job.get("reuse") else None
     P = _Proc()
     from typing import cast, Callable
-    out = dict(events=[], contracts=dict(cast_identity=(cast(Callable, worker) is worker)))
+    out = dict(events=[], contracts=dict(cast_identity=(cast(Callable, worker) is worker)),
+               hashseed=os.environ.get("PYTHONHASHSEED"))
     for ev in job["events"]:
         rec = dict()
         if ev.get("perturb"):
             P.perturb(ev["perturb"])
         rec["before"] = P.fingerprint()
         spec = ev["call"]
-        res, summary = _exec_call(spec)
+        res, summary = _exec_call(spec, cache)
         rec["after"] = P.fingerprint()
         txt = json.dumps(res, sort_keys=True)
         rec["digest"] = hashlib.sha256(txt.encode()).hexdigest()[:24]
@@ -261,9 +286,12 @@ def worker(inp, outp):
         if full:
             rec["full"] = res
         if spec["kind"] == "fc" and spec["seed"] is not None:
-            a = np.random.default_rng(spec["seed"]).random(6)
-            b = np.random.default_rng(spec["seed"]).random(6)
-            rec["orng"] = [bool((a == b).all()), hashlib.sha256(a.tobytes()).hexdigest()[:16]]
+            try:
+                a = np.random.default_rng(spec["seed"]).random(6)
+                b = np.random.default_rng(spec["seed"]).random(6)
+                rec["orng"] = [bool((a == b).all()), hashlib.sha256(a.tobytes()).hexdigest()[:16]]
+            except ValueError:                      # negative seed: numpy refuses, deterministically
+                rec["orng"] = [True, "refused"]
             rec["after_probe"] = P.fingerprint()["np"]  # the probe itself must not move the global state either
         if spec["kind"] == "ge":
             try:
@@ -283,28 +311,41 @@ def worker(inp, outp):
 # main side
 # =================================================================================================
 
-def run_workers(jobs, full=False):
-    """jobs: list of event lists.  Each job runs in its own interpreter; -> list of worker outputs (or error dicts)."""
+DEAD_FP = dict(reg=dict(actions=[], groups=[], cutopt=[None] * 5, lo=[None] * 5, basis=[], same=False), np="worker-failed", py="worker-failed")
+
+
+def run_workers(jobs, full=False, timeout=900):
+    """jobs: list of dict(events=[…], hashseed="0"|…, reuse=bool).  Each job runs in its own interpreter with its own
+    PYTHONHASHSEED; -> list of worker outputs.  A worker that dies or hangs does not abort the run: all its events are
+    recorded as crashed with an impossible fingerprint (so the model comparison and judge both flag the history)."""
     tmp = tempfile.mkdtemp(prefix="c09_", dir=os.environ.get("CKT_C09_TMP", None))
 
     def one(i):
+        job = jobs[i]
         inp = os.path.join(tmp, f"in{i}.json")
         outp = os.path.join(tmp, f"out{i}.json")
-        json.dump(dict(events=jobs[i], full=full), open(inp, "w"))
+        json.dump(dict(events=job["events"], full=full, reuse=bool(job.get("reuse"))), open(inp, "w"))
+        env = dict(os.environ, PYTHONHASHSEED=str(job.get("hashseed", "0")))
+        err = None
         try:
-            p = subprocess.run([sys.executable, os.path.join(HERE, "c09.py"), "--worker", inp, outp],
-                               stdout=subprocess.PIPE, stderr=subprocess.STDOUT, text=True, timeout=1200)
-            if p.returncode != 0 or not os.path.exists(outp):
-                return dict(error=p.stdout[-2000:])
-            return json.load(open(outp))
+            p = subprocess.run([sys.executable, os.path.join(HERE, "c09.py"), "--worker", inp, outp], env=env,
+                               stdout=subprocess.PIPE, stderr=subprocess.STDOUT, text=True, timeout=timeout)
+            if p.returncode == 0 and os.path.exists(outp):
+                return json.load(open(outp))
+            err = "worker exit %s: %s" % (p.returncode, p.stdout[-600:])
         except subprocess.TimeoutExpired:
-            return dict(error="worker timeout")
+            err = f"worker timeout after {timeout}s"
+        except Exception as e:  # noqa: BLE001
+            err = f"{type(e).__name__}: {e}"
         finally:
             for f in (inp, outp):
                 try:
                     os.remove(f)
                 except OSError:
                     pass
+        recs = [dict(before=DEAD_FP, after=DEAD_FP, digest="worker-failed", status="crashed", summary=_strip_addr(err)[:300],
+                     full=["crashed", err[:300]]) for _ in job["events"]]
+        return dict(events=recs, contracts=dict(cast_identity=True), hashseed=str(job.get("hashseed", "0")), worker_error=err)
 
     with ThreadPoolExecutor(max_workers=JOBS) as ex:
         res = list(ex.map(one, range(len(jobs))))
@@ -334,6 +375,8 @@ def gen_seed(rng, boundary=0.5):
         return 2 ** 32 - 1
     if r < boundary + 0.06:
         return None
+    if r < boundary + 0.12:
+        return [2 ** 32, 2 ** 64, -1, 2 ** 63 - 1][int(rng.integers(0, 4))]      # -1: numpy refuses (ValueError)
     return int(rng.integers(0, 2 ** 31))
 
 
@@ -368,12 +411,17 @@ def gen_fc(rng):
     ops = []
     for _ in range(ng):
         a, b = [int(x) for x in rng.choice(nq, 2, replace=False)]
-        r = int(rng.integers(0, 12))
-        g = ["cx", "cz", "swap"][r % 3] if r < 11 else "rzz"
-        ops.append([g, [a, b], [_angle(rng)] if g == "rzz" else []])
+        r = int(rng.integers(0, 14))
+        g = ["cx", "cz", "swap"][r % 3] if r < 11 else ["rzz", "cp", "rzx"][r - 11]     # rzx: KAK path
+        ops.append([g, [a, b], [_angle(rng)] if g in ("rzz", "cp", "rzx") else []])
         if rng.integers(0, 3) == 0:
             o = ["h", "x", "s", "rz"][int(rng.integers(0, 4))]
             ops.append([o, [int(rng.integers(0, nq))], [_angle(rng)] if o == "rz" else []])
+    r = int(rng.integers(0, 30))
+    if r == 0 and nq >= 3:                                        # 3-qubit gate: ValueError raised inside the greedy pass
+        ops.insert(int(rng.integers(0, len(ops) + 1)), ["ccx", [int(x) for x in rng.choice(nq, 3, replace=False)], []])
+    elif r < 4:                                                   # full-width barrier: the "barrier" branch of qc_to_cco_circuit
+        ops.insert(int(rng.integers(0, len(ops) + 1)), ["barrier", list(range(nq)), []])
     mode = int(rng.integers(0, 40))
     if mode == 0:
         width = 0                                                 # malformed (DeviceConstraints refuses)
@@ -390,7 +438,33 @@ def gen_fc(rng):
                 max_backjumps=mb, seed=seed)
 
 
-def gen_ge(rng, num_samples=None):
+def gen_fc_filler(rng):
+    """search on a circuit with no (rarely one) two-qubit gate: nothing to cut"""
+    n = int(rng.integers(2, 5))
+    ops = [["rx", [q], [_angle(rng)]] for q in range(n)]
+    if rng.integers(0, 7) == 0:
+        ops.append(["cx", [0, 1], []])
+    return dict(kind="fc", nq=n, ops=ops, width=int(rng.integers(1, n + 1)), gate_lo=True, wire_lo=True, max_gamma=1024,
+                max_backjumps=10000, seed=gen_seed(rng, 0.3))
+
+
+def gen_fc_star(rng):
+    """a hub qubit that collects several cx and then feeds one more: the optimum is ONE WIRE CUT at the hub
+    (overhead 16) as long as the search may place wire cuts; otherwise two gate cuts (81)"""
+    n = int(rng.integers(4, 7))
+    perm = [int(x) for x in rng.permutation(n)]
+    hub, last = perm[n - 2], perm[n - 1]
+    ops = [["cx", [perm[i], hub], []] for i in range(n - 2)]
+    ops.append(["h", [last], []])
+    ops.append(["cx", [hub, last], []])
+    return dict(kind="fc", nq=n, ops=ops, width=n - 2, gate_lo=True, wire_lo=True, max_gamma=1024, max_backjumps=10000,
+                seed=gen_seed(rng, 0.3))
+
+
+EXACT_GATES = ["cx", "cz", "cy"]          # probabilities 1/6 each: all-exact for every num_samples >= 36
+
+
+def gen_ge(rng, num_samples=None, exact_gates=False):
     nq = int(rng.integers(2, 5))
     k = int(rng.integers(1, nq))
     labels = "A" * k + "B" * (nq - k)
@@ -400,7 +474,7 @@ def gen_ge(rng, num_samples=None):
     for _ in range(ncross):
         a = int(rng.integers(0, k))
         b = int(rng.integers(k, nq))
-        g = ["cx", "cz", "rzz", "cp", "cy", "crx"][int(rng.integers(0, 6))]
+        g = EXACT_GATES[int(rng.integers(0, 3))] if exact_gates else ["cx", "cz", "rzz", "cp", "cy", "crx"][int(rng.integers(0, 6))]
         qs = [a, b] if rng.integers(0, 2) else [b, a]
         items.append([g, qs, [_angle(rng)] if g in ("rzz", "cp", "crx") else []])
     for _ in range(int(rng.integers(0, 4))):
@@ -420,24 +494,42 @@ def gen_ge(rng, num_samples=None):
     return dict(kind="ge", nq=nq, ops=ops, labels=labels, obs=obs, form=form, num_samples=num_samples)
 
 
+def gen_ge_finite_exact(rng):
+    """finite num_samples for which _generate_qpd_weights takes the all-exact branch (1/num_samples <= 1/36 <= smallest
+    probability of 1-2 cut cx/cz/cy gates), or num_samples < 1 (refused before anything is touched): no sampling either way"""
+    ns = [1e4, 1e6, float(2 ** 40), 36.0, 1000.0, 0.5][int(rng.integers(0, 6))]
+    c = gen_ge(rng, num_samples=ns, exact_gates=True)
+    c["exact"] = True
+    return c
+
+
 def gen_fi(rng):
-    r = int(rng.integers(0, 25))
+    r = int(rng.integers(0, 27))
     if r < 13:
         return dict(kind="fi", gate=G0[r], params=[])
     if r < 20:
         return dict(kind="fi", gate=G1[r - 13], params=[_angle(rng)])
-    g = GKAK[r - 20]
-    n = dict(rzx=1, xx_plus_yy=2, xx_minus_yy=2, cu=4, unitary=1)[g]
+    if r < 25:
+        return gen_fi_named(rng, GKAK[r - 20])
+    # the three refusal paths of qpdbasis_from_instruction: not a two-qubit gate / unbound parameter
+    return dict(kind="fi", gate=["h", "ccx", "rzz_unbound"][int(rng.integers(0, 3))], params=[])
+
+
+def gen_fi_named(rng, g):
+    n = dict(rzx=1, xx_plus_yy=2, xx_minus_yy=2, cu=4, unitary=1).get(g, 1)
     params = [int(rng.integers(0, 1000))] if g == "unitary" else [_angle(rng) for _ in range(n)]
     return dict(kind="fi", gate=g, params=params)
 
 
 def gen_call(rng):
+    """fill-in calls of a family (the fixed clusters already supply find_cuts and from_instruction calls)"""
     r = int(rng.integers(0, 20))
-    if r < 10:
+    if r < 5:
         return gen_fc(rng)
-    if r < 14:
+    if r < 11:
         return gen_ge(rng)
+    if r < 15:
+        return gen_ge_finite_exact(rng)
     return gen_fi(rng)
 
 
@@ -454,34 +546,56 @@ def call_key(spec):
 
 
 def is_subject(spec):
-    """calls the property makes a claim about: seeded find_cuts, exact generation, from_instruction"""
-    if spec["kind"] == "fc":
-        return spec["seed"] is not None
-    if spec["kind"] == "ge":
-        return spec["num_samples"] is None
-    return True
+    """calls the property makes a claim about (= exact_class of the model): find_cuts with an INTEGER seed, generation
+    that cannot reach the sampler (num_samples = inf, or marked exact by the generator: finite all-exact / refused),
+    from_instruction"""
+    k = spec.get("kind")
+    if k == "fc":
+        return spec.get("seed") is not None
+    if k == "ge":
+        return spec.get("num_samples") is None or bool(spec.get("exact"))
+    return k == "fi"
 
 
 def gen_family(rng, maxlen):
-    """distinct base calls + three histories over them (base order, permuted, with repeats + interference)."""
-    m = int(rng.integers(2, max(3, min(11, maxlen // 2 + 1))))
-    # every family starts from one tie-heavy search with the falsy seed 0 and one with another boundary seed
-    base = [gen_fc_tie(rng, seed=0, force_seed=True)]
-    if m >= 3:
-        base.append(gen_fc_tie(rng, seed=[1, 2 ** 32 - 1, 0][int(rng.integers(0, 3))], force_seed=True))
-    seen = set(call_key(c) for c in base)
-    if len(seen) < len(base):
-        base = base[:1]
+    """distinct base calls + three histories over them.
+    Every family holds a tie-heavy search with seed 0 and the SAME circuit and seed with other cut-kind options
+    (option flipping); full families additionally hold a no-two-qubit-gate search followed by a search whose optimum
+    is a wire cut, an exact (num_samples = inf) generation, and two from_instruction calls on the same parametrised gate
+    name with different angles.
+    Variants: base order (clusters in their critical order), permuted (own PYTHONHASHSEED), repeats (every call at
+    least twice, the argument OBJECTS reused, plus an optional sampled generation as interference)."""
+    small = rng.integers(0, 10) < 3 or maxlen < 12
+    c0 = gen_fc_tie(rng, seed=0, force_seed=True)
+    # option flipping on the same circuit and seed: a restricted action set FIRST, the full one after it
+    kinds0 = (c0["gate_lo"], c0["wire_lo"])
+    others = [k for k in [(False, True), (True, False), (True, True)] if k != kinds0]
+    flips = [dict(c0, gate_lo=k[0], wire_lo=k[1]) for k in others]
+    cluster = sorted([c0] + flips, key=lambda c: (c["gate_lo"] and c["wire_lo"], c["gate_lo"]))  # (F,T) (T,F) (T,T)
+    if small:
+        m = int(rng.integers(2, 6))
+        base = cluster[-2:] if rng.integers(0, 2) else [cluster[0], cluster[2]]
+        base = base[:m]
+    else:
+        m = int(rng.integers(8, max(9, min(11, maxlen // 2 + 1))))
+        base = list(cluster)
+        base += [gen_ge(rng), gen_fc_filler(rng), gen_fc_star(rng)]
+        g = (G1 + ["rzx", "xx_plus_yy", "cu"])[int(rng.integers(0, len(G1) + 3))]
+        base += [gen_fi_named(rng, g), gen_fi_named(rng, g)]
+    seen = set()
+    base = [c for c in base if not (call_key(c) in seen or seen.add(call_key(c)))]
     while len(base) < m:
         c = gen_call(rng)
         if call_key(c) not in seen:
             seen.add(call_key(c))
             base.append(c)
+    m = len(base)
     hs = []
-    hs.append([dict(perturb=gen_perturb(rng), call=c) for c in base])
-    hs.append([dict(perturb=gen_perturb(rng), call=base[int(i)]) for i in rng.permutation(m)])
+    hs.append(dict(hashseed="0", reuse=False, events=[dict(perturb=gen_perturb(rng), call=c) for c in base]))
+    hs.append(dict(hashseed=str(int(rng.integers(1, 2 ** 32))), reuse=False,
+                   events=[dict(perturb=gen_perturb(rng), call=base[int(i)]) for i in rng.permutation(m)]))
     # repeats: every call at least TWICE (2m <= maxlen by the choice of m), then random further repetitions
-    L = int(rng.integers(2 * m, maxlen + 1))
+    L = int(rng.integers(2 * m, max(2 * m, maxlen) + 1))
     seq = [base[int(i)] for i in rng.permutation(m)] + [base[int(i)] for i in rng.permutation(m)] + \
         [base[int(rng.integers(0, m))] for _ in range(L - 2 * m)]
     seq = [seq[int(i)] for i in rng.permutation(len(seq))]
@@ -492,8 +606,9 @@ def gen_family(rng, maxlen):
     if len(evs) < maxlen and rng.integers(0, 2):
         pos = int(rng.integers(0, len(evs)))
         evs.insert(pos, dict(perturb=[], call=gen_ge(rng, num_samples=[2, 3, 5][int(rng.integers(0, 3))])))
-    hs.append(evs)
-    return base, hs
+    hs.append(dict(hashseed="0", reuse=True, events=evs))
+    fresh_hashseeds = [("0" if rng.integers(0, 2) else str(int(rng.integers(1, 2 ** 32)))) for _ in base]
+    return base, hs, fresh_hashseeds
 
 
 # ---------------- Coq emission ----------------
@@ -517,7 +632,15 @@ def coq_view(reg):
 KIND = dict(fc=0, ge=1, fi=2)
 
 
-def build_case(events, results, fresh_specs, fresh_results):
+def kind_of(spec):
+    """0 find_cuts, 1 generate(inf), 2 from_instruction, 5 generate(finite, all-exact or refused: a subject),
+    4 generate(finite, may sample: interference only)"""
+    if spec["kind"] == "ge" and spec["num_samples"] is not None:
+        return 5 if spec.get("exact") else 4
+    return KIND[spec["kind"]]
+
+
+def build_case(events, results, fresh_specs, fresh_results, fresh_hashseeds=None):
     """events: recipes of one history; results: worker records; fresh_*: the distinct subject calls and their
     length-1-history records.  -> (coq_case, json_case)"""
     views, toks, args, rids = Interner(), Interner(), Interner(), Interner()
@@ -539,10 +662,7 @@ def build_case(events, results, fresh_specs, fresh_results):
         spec = ev["call"]
         b, a = obs(rec["before"]), obs(rec["after"])
         rid = rids(rec["digest"])
-        if spec["kind"] == "ge" and spec["num_samples"] is not None:
-            kind = 4
-        else:
-            kind = KIND[spec["kind"]]
+        kind = kind_of(spec)
         seed = Opt(Zc(spec["seed"])) if spec.get("seed") is not None else Opt()
         cev.append((kind, (arg_of(spec), bool(spec.get("gate_lo", False)), bool(spec.get("wire_lo", False))), seed, b, a, rid))
         jev.append(dict(perturb=ev.get("perturb", []), call=spec, before=rec["before"], after=rec["after"],
@@ -551,10 +671,11 @@ def build_case(events, results, fresh_specs, fresh_results):
     for spec, rec in zip(fresh_specs, fresh_results):
         seed = Opt(Zc(spec["seed"])) if spec.get("seed") is not None else Opt()
         # the fresh interpreter must show the same registries (and leave everything alone) too
-        cfresh.append((KIND[spec["kind"]], (arg_of(spec), bool(spec.get("gate_lo", False)), bool(spec.get("wire_lo", False))), seed,
+        cfresh.append((kind_of(spec), (arg_of(spec), bool(spec.get("gate_lo", False)), bool(spec.get("wire_lo", False))), seed,
                        obs(rec["before"]), obs(rec["after"]), rids(rec["digest"])))
         jfresh.append(dict(call=spec, digest=rec["digest"], status=rec["status"], summary=rec["summary"],
-                           before=rec["before"], after=rec["after"]))
+                           before=rec["before"], after=rec["after"],
+                           hashseed=(fresh_hashseeds[len(jfresh)] if fresh_hashseeds else "0")))
     cviews = [(vid, coq_view(view_objs[vid])) for vid in sorted(view_objs)]
     coq_case = (cviews, cfresh, cev)
     json_case = dict(kind="history", events=jev, fresh=jfresh)
@@ -654,44 +775,53 @@ def generate(rng, tier, outdir):
     # ---- histories ----
     fams = [gen_family(rng, maxlen) for _ in range(n_fam)]
     jobs, index = [], []
-    for fi, (base, hs) in enumerate(fams):
+    for fi, (base, hs, fhs) in enumerate(fams):
         for hi, h in enumerate(hs):
             index.append(("h", fi, hi))
             jobs.append(h)
         for bi, c in enumerate(base):
             index.append(("f", fi, bi))
-            jobs.append([dict(perturb=[], call=c)])
-    outs = run_workers(jobs)
-    bad = [(ix, o["error"]) for ix, o in zip(index, outs) if "error" in o]
-    if bad:
-        raise RuntimeError(f"{len(bad)} worker(s) failed; first: {bad[0]}")
+            jobs.append(dict(hashseed=fhs[bi], reuse=False, events=[dict(perturb=[], call=c)]))
+    outs = run_workers(jobs, timeout=(600 if quick else 1500))
     by = {ix: o for ix, o in zip(index, outs)}
+    for ix, o in zip(index, outs):
+        w.contract("worker interpreter finished (no crash, no hang)", "worker_error" not in o)
+        if "worker_error" in o:
+            w.notes.append(f"worker {ix}: {o['worker_error'][:300]}")
     n_calls = 0
     orng_ref = {}
-    for fi, (base, hs) in enumerate(fams):
+    for fi, (base, hs, fhs) in enumerate(fams):
         fresh_results = [by[("f", fi, bi)]["events"][0] for bi in range(len(base))]
         for hi, h in enumerate(hs):
             recs = by[("h", fi, hi)]["events"]
-            coq_case, json_case = build_case(h, recs, base, fresh_results)
+            evs = h["events"]
+            coq_case, json_case = build_case(evs, recs, base, fresh_results, fhs)
             json_case["family"], json_case["variant"] = fi, ["base", "permuted", "repeats"][hi]
-            subj = [e for e in h if is_subject(e["call"])]
+            json_case["hashseed"], json_case["reuse"] = h["hashseed"], h["reuse"]
+            subj = [e for e in evs if is_subject(e["call"])]
             w.add("history", "chk_history", coq_case, json_case,
-                  nontrivial=(len(subj) >= 2), key=json.dumps([e["call"] for e in h], sort_keys=True))
-            n_calls += len(h)
-            w.count("history.length", len(h))
+                  nontrivial=(len(subj) >= 2), key=json.dumps([e["call"] for e in evs], sort_keys=True))
+            n_calls += len(evs)
+            w.count("history.length", len(evs))
             w.count("history.variant", json_case["variant"])
-            for e, r in zip(h, recs):
+            w.count("history.hashseed", "0" if h["hashseed"] == "0" else "random")
+            for e, r in zip(evs, recs):
                 c = e["call"]
                 kind = c["kind"] + ("/unseeded" if c["kind"] == "fc" and c["seed"] is None else "") + \
-                    ("/sampled" if c["kind"] == "ge" and c["num_samples"] is not None else "")
+                    ("" if c["kind"] != "ge" or c["num_samples"] is None else "/finite-exact" if c.get("exact") else "/sampled")
                 w.count("call.kind", kind)
                 w.count("call.status", c["kind"] + ":" + r["status"])
                 w.count("perturb", "+".join(sorted(set(p[0] for p in e["perturb"]))) or "none")
                 if c["kind"] == "fc":
-                    w.count("fc.seed", {0: "0", 1: "1", 2 ** 32 - 1: "2**32-1", None: "None"}.get(c["seed"], "other int"))
-                    w.count("fc.shape", "tie-heavy ring" if len({o[0] for o in c["ops"]}) == 1 and len(c["ops"]) >= c["nq"] >= 4 else "random")
+                    w.count("fc.seed", {0: "0", 1: "1", 2 ** 32 - 1: "2**32-1", None: "None", -1: "-1", 2 ** 32: "2**32",
+                                        2 ** 64: "2**64", 2 ** 63 - 1: "2**63-1"}.get(c["seed"], "other int"))
+                    names = {o[0] for o in c["ops"] if len(o[1]) >= 2}
+                    w.count("fc.shape", "no 2q gate" if not names else "tie-heavy ring" if len(names) == 1 and len(c["ops"]) >= c["nq"] >= 4
+                            and len({o[0] for o in c["ops"]}) == 1 else "star" if len(c["ops"]) >= 4 and c["ops"][-2][0] == "h" and len(names) == 1 else "random")
                     w.count("fc.cut_kinds", f"gate_lo={c['gate_lo']},wire_lo={c['wire_lo']}")
                     w.count("fc.nq", c["nq"])
+                if c["kind"] == "fi":
+                    w.count("fi.gate", c["gate"])
                 if "orng" in r:
                     ok = r["orng"][0] and orng_ref.setdefault(c["seed"], r["orng"][1]) == r["orng"][1] \
                         and r["after_probe"] == r["after"]["np"]
@@ -700,9 +830,11 @@ def generate(rng, tier, outdir):
                 if "probs_nonneg" in r:
                     w.contract("QPDBasis.probabilities >= 0 (smallest_probability >= 0)", r["probs_nonneg"])
                 if c["kind"] == "ge" and c["num_samples"] is not None:
-                    w.count("sampled_gen.np_state_moved", r["before"]["np"] != r["after"]["np"])
+                    w.count("finite_gen.np_state_moved", ("exact:" if c.get("exact") else "sampled:") + str(r["before"]["np"] != r["after"]["np"]))
         for o in [by[("f", fi, bi)] for bi in range(len(base))] + [by[("h", fi, hi)] for hi in range(len(hs))]:
             w.contract("typing.cast(T, x) is x", o["contracts"]["cast_identity"])
+        for bi in range(len(base)):
+            w.count("fresh.hashseed", "0" if fhs[bi] == "0" else "random")
         n_calls += len(base)
 
     # ---- ActionNames.copy on the real registry ----
@@ -739,16 +871,32 @@ def generate(rng, tier, outdir):
               dict(kind="define", actions=acts, impl=r), nontrivial=(len(acts) >= 2))
         w.count("define.outcome", r[0])
 
+    # ---- the property-level oracle must accept what the unchanged tree produced (it is also run by `judgeall`) ----
+    flagged = []
+    for gname, g in w.groups.items():
+        for _cq, jc in g["cases"]:
+            v = judge(jc)
+            ok = v.get("violates") is False
+            w.contract("judge_accepts_clean_case", ok)
+            if not ok and len(flagged) < 3:
+                flagged.append(f"{gname}: {str(v.get('detail'))[:300]}")
+    w.notes.extend("judge flagged: " + f for f in flagged)
+
     return w.finish(
-        rule="history: families of 2-10 distinct calls (find_cuts on random cx/cz/swap(/rzz) circuits of 2-6 qubits with random width, "
-             "cut kinds, max_gamma, max_backjumps, and 2/5 tie-heavy rings of identical cx/cz gates on 4-6 qubits at the widths where the random "
-             "tie-break decides which cut set is returned; integer seeds with the boundary values 0 (falsy), 1, 2**32-1 over-represented, the same seed "
-             "shared by several calls (1/16 seed=None, 1/40 width 0 malformed); generate_cutting_experiments(num_samples=inf) "
-             "on 2-4 qubit problems with 1-2 cut gates, partitioned and single-circuit forms; QPDBasis.from_instruction on the 20 registered gates "
-             "and 5 KAK-path gates), every family contains a tie-heavy search with seed 0; each family executed as three histories (base order / permuted / every call at "
-             "least twice plus random repeats up to the length bound "
-             "and an optional finite-num_samples generation as interference), every history in its own interpreter with random reseeding/advancing "
-             "of numpy's and Python's global generators before each call, plus every distinct call alone in a fresh interpreter. "
+        rule="history: families of 2-10 distinct calls. find_cuts: random cx/cz/swap circuits (some rzz/cp/rzx gates, full-width barriers, "
+             "rarely a 3-qubit gate) of 2-6 qubits with random width, cut kinds, max_gamma, max_backjumps; 2/5 tie-heavy rings of identical "
+             "cx/cz gates on 4-6 qubits at the widths where the random tie-break decides which cut set is returned; every family holds such a "
+             "ring with seed 0 AND the same circuit and seed under the other cut-kind options (option flipping, restricted set first); full "
+             "families also hold a search on a circuit without two-qubit gates followed by a star circuit whose optimum is one wire cut, and "
+             "two from_instruction calls on the same parametrised gate name with different angles. Integer seeds with 0 (falsy), 1, 2**32-1 "
+             "over-represented, also 2**32, 2**63-1, 2**64, -1 (refused), the same seed shared by several calls (1/16 seed=None, 1/40 width 0). "
+             "generate_cutting_experiments on 2-4 qubit problems with 1-2 cut gates, partitioned and single-circuit forms, num_samples = inf, or "
+             "finite with the all-exact branch guaranteed (cx/cz/cy cuts, num_samples in {36,1e3,1e4,1e6,2**40}) or 0.5 (refused). "
+             "QPDBasis.from_instruction on the 20 registered gates, 5 KAK-path gates and three refused inputs (1-qubit, 3-qubit, unbound parameter). "
+             "Each family runs as three histories, every history in its own interpreter: base order (PYTHONHASHSEED 0), permuted (PYTHONHASHSEED "
+             "drawn per history), every call at least twice with the ARGUMENT OBJECTS REUSED plus random repeats up to the length bound and an "
+             "optional sampled generation as interference; random reseeding/advancing of numpy's and Python's global generators before each call; "
+             "every distinct call alone in a fresh interpreter (half of them with a drawn PYTHONHASHSEED). "
              "distinct = distinct call sequence; non-trivial = at least two calls the property speaks about. "
              "copy/define: random group lists (None, [], known, unknown) on the real registry / random action sequences with duplicate names.",
         extra=dict(extra=dict(interpreters=len(jobs), calls_executed=n_calls)))
@@ -772,7 +920,8 @@ def _judge(case):
     seen = {}
     for f in case.get("fresh", []):
         if is_subject(f["call"]):
-            seen.setdefault(call_key(f["call"]), []).append(("fresh interpreter", f["digest"], f["summary"]))
+            seen.setdefault(call_key(f["call"]), []).append((f"fresh interpreter (PYTHONHASHSEED={f.get('hashseed', '0')})",
+                                                             f["digest"], f["summary"]))
     for i, e in enumerate(case["events"]):
         if is_subject(e["call"]):
             seen.setdefault(call_key(e["call"]), []).append((f"history position {i}", e["digest"], e["summary"]))
@@ -781,7 +930,16 @@ def _judge(case):
         if len(ds) > 1:
             return dict(violates=True, detail=f"call {k[:400]} returned different results: " +
                         "; ".join(f"{w}: {d} ({s})" for w, d, s in obs[:8]))
-    return dict(violates=False, detail=f"{len(seen)} distinct calls, all repetitions and fresh-interpreter runs agree")
+    # "… or what state the global random generators are in" / "a pure function of its arguments": a call of the three
+    # classes that moves one of the global generators makes every later consumer of that generator history dependent
+    for where, recs in (("history position", case["events"]), ("fresh interpreter", case.get("fresh", []))):
+        for i, e in enumerate(recs):
+            if is_subject(e["call"]):
+                for gen in ("np", "py"):
+                    if e["before"][gen] != e["after"][gen]:
+                        return dict(violates=True, detail=f"{where} {i}: call {call_key(e['call'])[:300]} changed the state of "
+                                    f"{'numpy.random' if gen == 'np' else 'random'}'s global generator")
+    return dict(violates=False, detail=f"{len(seen)} distinct calls, all repetitions and fresh-interpreter runs agree; global generators untouched")
 
 
 def rerun(case):
@@ -793,26 +951,26 @@ def rerun(case):
         case["impl"] = run_define(case["actions"])
         return case
     events = [dict(perturb=e["perturb"], call=e["call"]) for e in case["events"]]
-    # every distinct call in THREE fresh interpreters (their global generators are seeded from OS entropy, so a dependence
-    # on them shows up as disagreement between fresh runs with high probability), the history once
-    distinct = []
+    # the history once (same PYTHONHASHSEED and instance-reuse mode as recorded); every distinct call in THREE fresh
+    # interpreters: recorded hash seed, hash seed 0, random hash seed (their global generators are seeded from OS entropy,
+    # so a dependence on them shows up as disagreement between fresh runs with high probability)
+    distinct, hs = [], {}
     for f in case["fresh"]:
         if call_key(f["call"]) not in [call_key(c) for c in distinct]:
             distinct.append(f["call"])
-    fresh = [c for c in distinct for _ in range(3)]
-    outs = run_workers([events] + [[dict(perturb=[], call=c)] for c in fresh], full=True)
-    for o in outs:
-        if "error" in o:
-            raise RuntimeError(o["error"])
+            hs[call_key(f["call"])] = str(f.get("hashseed", "0"))
+    fresh = [(c, h) for c in distinct for h in (hs[call_key(c)], "0", "random")]
+    outs = run_workers([dict(hashseed=str(case.get("hashseed", "0")), reuse=bool(case.get("reuse")), events=events)] +
+                       [dict(hashseed=h, reuse=False, events=[dict(perturb=[], call=c)]) for c, h in fresh], full=True)
     fulls = {}
     for e, r in zip(case["events"], outs[0]["events"]):
         e.update(before=r["before"], after=r["after"], digest=r["digest"], status=r["status"], summary=r["summary"])
         fulls.setdefault(call_key(e["call"]), []).append(r["full"])
     case["fresh"] = []
-    for c, o in zip(fresh, outs[1:]):
+    for (c, h), o in zip(fresh, outs[1:]):
         r = o["events"][0]
         case["fresh"].append(dict(call=c, before=r["before"], after=r["after"], digest=r["digest"], status=r["status"],
-                                  summary=r["summary"]))
+                                  summary=r["summary"], hashseed=h))
         fulls.setdefault(call_key(c), []).append(r["full"])
     diffs = []
     for k, fl in fulls.items():
